@@ -36,6 +36,18 @@ Theorem C05_invalid_rejected_noop : forall sch ty allw resw more um rm stored wr
 Proof. exact invalid_rejected_noop. Qed.
 Print Assumptions C05_invalid_rejected_noop.
 
+(* WithMoreUpdateMask / WithMoreUpdatePaths: a nil update mask (= all writable fields) stays nil, a
+   non-nil one gets exactly the extra paths added (up to normalization) *)
+Theorem C05_more_update_spec : forall um moreu,
+  effective_update None moreu = None /\
+  effective_update um None = um /\
+  (forall ps extra p, um = Some ps -> moreu = Some extra ->
+     exists qs, effective_update um moreu = Some qs /\
+                (In p (ps ++ extra)%list -> exists q, In q qs /\ is_prefix q p = true) /\
+                (In p qs -> In p (ps ++ extra)%list)).
+Proof. exact more_update_spec. Qed.
+Print Assumptions C05_more_update_spec.
+
 (* an empty non-nil update mask changes nothing *)
 Theorem C05_empty_mask_noop : forall sch ty wm rm dst src,
   schema_names_ok sch = true -> valid_or sch ty wm = true -> conforms sch ty src = true ->
@@ -126,10 +138,77 @@ Theorem C05_reset_cleared : forall sch ty um wm rs dst src post src' p r,
 Proof. exact reset_cleared. Qed.
 Print Assumptions C05_reset_cleared.
 
-(* PARTIAL: the frame / inside statements are proved for a non-nil update mask.  For a nil update mask
-   with a non-nil writable mask (dst pruned to the writable fields, then merged) only the
-   correspondence and the oracle C05_ok cover the frame; and that Merge does not panic under valid
-   masks is likewise observed, not proved (the theorems above are about every run that returns). *)
+(* FRAME and INSIDE for a NIL update mask on a resource with writable fields W (Merge prunes the
+   writable paths from dst, then merges the W-filtered written message): everything W and the reset
+   mask do not reach is unchanged; every (normalized) writable path ends exactly as the written message
+   has it — nothing there means cleared *)
+Theorem C05_frame_nil_update : forall sch ty ws rm dst src post src',
+  schema_names_ok sch = true ->
+  conforms sch ty dst = true -> conforms sch ty src = true ->
+  fm_valid sch ty ws = true -> ws <> [] ->
+  merge sch ty None (Some ws) rm dst src = MOk post src' ->
+  forall q, outside_t sch ty (trie ws) q -> outside_p (trie (mask_paths rm)) q ->
+  get_at q post = get_at q dst.
+Proof. exact frame_nil_update. Qed.
+Print Assumptions C05_frame_nil_update.
+
+Theorem C05_inside_nil_update : forall sch ty ws rm dst src post src' p,
+  schema_names_ok sch = true ->
+  conforms sch ty dst = true -> conforms sch ty src = true ->
+  fm_valid sch ty ws = true ->
+  merge sch ty None (Some ws) rm dst src = MOk post src' ->
+  In p (normalize_paths ws) -> outside_p (trie (mask_paths rm)) p ->
+  get_at p post = get_at p src.
+Proof. exact inside_nil_update. Qed.
+Print Assumptions C05_inside_nil_update.
+
+(* FRAME, EXACT about oneofs.  [outside_p] only: q is not reached by the update mask nor by the reset
+   mask.  Then q holds what it held — unless, somewhere on its way, a field that the (writable-filtered)
+   written message does not itself set is a member of a oneof another member of which the update mask
+   names and the written message sets ([cleared_along]): then q is cleared.  That is protobuf's "setting
+   a oneof member clears the others", and nothing else happens outside the masks. *)
+Theorem C05_frame_exact : forall sch ty ups wm rm dst src post src',
+  schema_names_ok sch = true ->
+  conforms sch ty dst = true -> conforms sch ty src = true ->
+  fm_valid sch ty ups = true -> ups <> [] -> wm <> Some [] ->
+  merge sch ty (Some ups) wm rm dst src = MOk post src' ->
+  exists src1, writable_filtered wm src src1 /\
+    forall q, outside_p (trie ups) q -> outside_p (trie (mask_paths rm)) q ->
+              get_at q post = if cleared_along sch ty (trie ups) src1 q then None else get_at q dst.
+Proof. exact frame_exact. Qed.
+Print Assumptions C05_frame_exact.
+
+(* NO PANIC.  Conformant stored and written messages, update / writable / reset masks each valid for
+   the type (Validate checks the first and the last; the writable mask is the developer's), in ANY
+   mutual relation: Merge returns.  Hence Value.Set never panics in Merge when the resource's writable
+   fields and the extra writable fields are valid masks. *)
+Theorem C05_merge_never_panics : forall sch ty um wm rm dst src,
+  schema_names_ok sch = true ->
+  conforms sch ty dst = true -> conforms sch ty src = true ->
+  valid_or sch ty um = true -> valid_or sch ty wm = true -> valid_or sch ty rm = true ->
+  merge sch ty um wm rm dst src <> MPanic.
+Proof. exact merge_never_panics. Qed.
+Print Assumptions C05_merge_never_panics.
+
+Theorem C05_write_never_panics : forall sch ty allw resw more um rm stored written,
+  schema_names_ok sch = true ->
+  conforms sch ty stored = true -> conforms sch ty written = true ->
+  valid_or sch ty resw = true -> valid_or sch ty more = true ->
+  write sch ty allw resw more um rm stored written <> WPanic.
+Proof. exact write_never_panics. Qed.
+Print Assumptions C05_write_never_panics.
+
+(* ... but NOT for all masks: a writable mask that is not valid for the type (WithWritableFields does
+   not validate it, unlike WithWritablePaths) passes Validate and makes Merge panic in fmutils.
+   Confirmed on the real code: Value.Set panics "type mismatch: cannot convert map to message". *)
+Theorem C05_invalid_writable_panics :
+  let wm := Some [["map_string_string"; "a"]] in
+  let written := VM [("map_string_string", VMap [(SStr "a", VS (SStr "x"))])] in
+  conforms the_schema "sc.go.test.TestAllTypes" written = true /\
+  valid_or the_schema "sc.go.test.TestAllTypes" wm = false /\
+  validate_update the_schema "sc.go.test.TestAllTypes" None wm None = code_ok /\
+  merge the_schema "sc.go.test.TestAllTypes" None wm None (VM []) written = MPanic.
+Proof. vm_compute. repeat split; reflexivity. Qed.
 
 (* ---- the pinned code ---- *)
 Definition tat := "sc.go.test.TestAllTypes".
@@ -247,6 +326,19 @@ Proof.
     intros k' Hk. unfold nm_lookup in Hk. cbn [alookup nm_children] in Hk.
     destruct (String.eqb k' "c") eqn:E1; [apply String.eqb_eq in E1; subst; vm_compute; tauto|]. congruence.
 Qed.
+
+(* the oneof clause of C05_frame_exact fires: writing oneof_default_nested_message.a clears the stored
+   oneof_default_int32, a position no mask reaches *)
+Example C05_nonvacuous_oneof :
+  let ups := [["oneof_default_nested_message"; "a"]] in
+  let stored := VM [("default_int32", VS (SInt 7)); ("oneof_default_int32", VS (SInt 0))] in
+  let written := VM [("oneof_default_nested_message", VM [("a", VS (SInt 3))])] in
+  conforms the_schema tat stored = true /\ conforms the_schema tat written = true /\
+  (exists s', merge the_schema tat (Some ups) None None stored written =
+              MOk (VM [("default_int32", VS (SInt 7)); ("oneof_default_nested_message", VM [("a", VS (SInt 3))])]) s') /\
+  cleared_along the_schema tat (trie ups) written ["oneof_default_int32"] = true /\
+  cleared_along the_schema tat (trie ups) written ["default_int32"] = false.
+Proof. vm_compute. repeat split; try reflexivity. eexists. reflexivity. Qed.
 
 Example C05_nonvacuous_rejected :
   write the_schema tat false (Some [[dfm; "c"]]) None (Some [[dfm]]) None st0 wr0 = WErr code_invalid_argument /\
